@@ -530,7 +530,9 @@ int process_patch(const Options& options)
         PatchHeaderInfo info;
         bool should_parse_body = parser.parse_patch_header(patch, info, options.strip_size);
 
-        if (patch.format == Format::Unknown) {
+        // NOTE: when told the format on the command line it is never unknown, even if all
+        //       that is left of the input is text in which no hunk could be found.
+        if (patch.format == Format::Unknown || (info.lines_till_first_hunk == 0 && should_parse_body)) {
             if (first_patch)
                 throw std::invalid_argument("Only garbage was found in the patch input.");
             if (options.verbose)
